@@ -17,7 +17,12 @@ typedef struct {
 ghost_t G;
 #define SPEC_ENV_TAKES_ADDR 1
 
+/* create's allocator: records the request; the object handed back is the static store below (only the header is touched by create) */
+static size_t create_req; static int create_calls; static void* create_obj;
+static void* stub_calloc(size_t n, size_t sz) { create_calls++; create_req = n * sz; return verif_bool() ? 0 : create_obj; }
+#define calloc stub_calloc
 #include "lockfree_ring_buffer.h" /* woven real code (found first on the include path) */
+#undef calloc
 /* the ring: header followed by 2^PMAX cells; `size` is symbolic (2^1 .. 2^PMAX).  A fixed backing store keeps the SAT
    encoding flat (a malloc of symbolic size sends CBMC's array post-processing into a blow-up) */
 static struct { lockfree_ring_buffer_t rb; void* cells[1 << PMAX]; } RBS;
@@ -139,3 +144,15 @@ void h_trypush(void) { init_any(PUSHER); VASSUME(G.in != 0 && PRE_op(PUSHER)); i
   VASSERT(POST_push(r), "H: trypush claims then writes its value, or fails without effect for a stated reason"); VCANARY("trypush can return"); }
 void h_trypop(void) { init_any(POPPER); VASSUME(PRE_op(POPPER)); void* r = lockfree_ring_buffer_trypop(RB);
   VASSERT(POST_pop(r), "H: trypop claims, returns the value pushed for that index, clears; or fails without effect for a stated reason"); VCANARY("trypop can return"); }
+/* create: for every capacity the interface admits (2^1 .. 2^31) the allocation really holds that many slots - the proofs above take
+ * "buffer has `size` cells" as given, this is where it is established */
+void h_create(void) {
+  uint32_t k = (uint32_t)verif_u64(); VASSUME(k >= 1 && k < 32);
+  create_calls = 0; create_req = 0; create_obj = &RBS;
+  lockfree_ring_buffer_t* r = lockfree_ring_buffer_create(k);
+  VASSERT(create_calls == 1 && create_req >= sizeof(lockfree_ring_buffer_t) + ((size_t)1 << k) * sizeof(void*),
+          "H: C16 create: the allocation holds the header and all 2^k slots, for every k the interface admits (1..31) - otherwise pushes overwrite foreign memory");
+  if (r) VASSERT(r == RB && r->size == ((uint32_t)1 << k) && r->power_of_2_mod == r->size - 1 && CUR_H == 0 && CUR_L == 0,
+                 "H: C16 create: capacity 2^k, mask 2^k - 1, empty (high == low == 0, calloc'ed slots are NULL)");
+  VCANARY("create can return");
+}
